@@ -52,11 +52,12 @@ func Mv(r *Root, src, dst string) error {
 		return err
 	}
 
+	replaceFile := false
 	fsn, err := dstDir.Child(dstFname)
 	if err == nil {
 		switch n := fsn.(type) {
 		case *File:
-			_ = dstDir.Unlink(dstFname)
+			replaceFile = true
 		case *Directory:
 			dstDir = n
 			dstFname = srcFname
@@ -65,6 +66,26 @@ func Mv(r *Root, src, dst string) error {
 		}
 	} else if err != os.ErrNotExist {
 		return err
+	}
+
+	// A directory cannot be moved into itself or into one of its own
+	// descendants: the copy would be added below the source and then be
+	// removed together with it.
+	if sd, ok := srcObj.(*Directory); ok {
+		for d := dstDir; d != nil; {
+			if d == sd {
+				return fmt.Errorf("cannot move %s into itself (%s)", src, dst)
+			}
+			pd, ok := d.parent.(*Directory)
+			if !ok {
+				break
+			}
+			d = pd
+		}
+	}
+
+	if replaceFile {
+		_ = dstDir.Unlink(dstFname)
 	}
 
 	err = dstDir.AddChild(dstFname, nd)
